@@ -203,10 +203,24 @@ def run(ctx):
         elif other:
             bad = "other mutating calls on the series element: %s" % other
         elif ser_cls:
+            from checks.c10 import complex_types_for, decide
+
             for x in inserted:
                 eff = M.effective(ser_cls[0], "_insert_" + x)
                 if eff is None or eff[0] != "generated":
                     bad = "_insert_%s is not the generated schema-positioned inserter" % x
+                    continue
+                decl, ctag = eff[1], eff[2]
+                succ = tuple(prog.qn(t) for t in decl.successors)
+                for stag in M.tags_for_class(ser_cls[0]):
+                    for tq in complex_types_for(S, prog.qn(stag)):
+                        if prog.qn(ctag) not in S.alphabet(tq):
+                            continue
+                        fails = decide(S, tq, prog.qn(ctag), succ, M.semantics, 2)
+                        if fails:
+                            v, idx, valid = fails[0]
+                            bad = "re-inserted %s lands at a schema-invalid position in %s for sibling context [%s]" % (
+                                ctag, S.tname(tq), ", ".join(S.pfx(t) for t in v))
         if removed and removed.index(removed[0]) != 0:
             pass
         if bad:
